@@ -27,18 +27,22 @@ META = {
             "compatibility both ways, with unknown fields, shuffled fields and absent fields.",
     "note": "Trusted: Coq kernel; translator; extraction (ExtrOcamlBasic) + ocaml/se_driver.ml; the C++ harness; "
             "protobuf's CodedInputStream/CodedOutputStream and generated messages (modelled / used as oracle, not "
-            "verified); std containers.  Not proved (correspondence + monitors only): success of a parse of "
-            "arbitrary bytes => stable; round trip through set/map; equality of the wire format with protobuf's "
-            "encoder.  Not modelled: sizes >= 2^31, size caches (mutable members), the text printer, the name-keyed "
+            "verified); std containers.  Also proved for all byte strings and all types: parsing under a limit never "
+            "loops (c11_parse_terminates) and only moves forward inside its window (c11_decode_consumes); on a stream "
+            "without limit the same for every type whose containers do not hold smart pointers to scalars.  Not "
+            "proved (correspondence + monitors only): success of a parse of arbitrary bytes => stable; round trip "
+            "through set/map; equality of the wire format with protobuf's encoder; the member size caches of re-used "
+            "objects (not modelled: regular monitor on in-place re-use, plus a translator target on the order "
+            "`field_cache = size; if (size == 0)`).  Not modelled: sizes >= 2^31, the text printer, the name-keyed "
             "Serializer registry; hash containers are duplicate-free insertion-ordered lists (iteration order of the "
             "real ones is canonicalised by sorting).  No byte outside the limit is visible to a parser by "
             "construction of the stream model; memory safety of the real code is checked by the sanitizer runs.  "
-            "The full round-trip/termination statements are false of the code as it is and are kept as *_refuted "
-            "theorems with witnesses replayed on the real classes (KNOWN_FINDINGS): null pointers to scalars inside "
-            "containers vanish; a top-level vector on a stream without limit parses to empty (vector<float>: "
-            "terminate); >= 10 continuation bytes where a length prefix is expected, or a length prefix beyond the "
-            "end of an unlimited stream, make container parsers loop forever; a re-used aggregate serializes a stale "
-            "cached member size.",
+            "Fixed in /repo and now checked positively: stale member size cache (b1345b6), ignored failure of a "
+            "length-prefix read (e367940; reverting either breaks a translator target, the latter also re-opens "
+            "SEHang.dec_len_prog).  Still false of the code and kept as *_refuted theorems with witnesses replayed on "
+            "the real classes (KNOWN_FINDINGS): null pointers to scalars inside containers vanish (and such a vector "
+            "under a length prefix beyond the end of a stream without limit spins forever); a top-level vector on a "
+            "stream without limit parses to empty (vector<float>: terminate).",
 }
 
 # ------------------------------------------------------------------ type family (must mirror c11_serialization.cpp)
@@ -60,6 +64,7 @@ TYPES = {
     "inner": INNER, "onlystr": ONLYSTR,
     "ptrs": "( agg 1 ( up str ) 2 ( up i32 ) 3 ( sp %s ) 4 ( vec ( up %s ) ) 5 ( sp %s ) 6 ( up %s ) 7 ( vec ( sp str ) ) )"
             % (INNER, INNER, ONLYSTR, ONLYSTR),
+    "aggvupi": "( agg 1 ( vec ( up i32 ) ) 2 i32 )",
     "arr": "( agg 1 ( arr 3 i32 ) 2 ( arr 2 %s ) 3 ( arr 2 f32 ) 4 ( arr 2 str ) )" % INNER,
     "derived": "( agg 1 %s 5 i64 7 ( vec %s ) )" % (INNER, INNER),
     "auto": "( agg 1 u32 2 str 3 ( vec i64 ) )",
@@ -524,7 +529,7 @@ def main(argv):
                                "val": show(gen_val(rng, ty, 0, name in ("cobj", "csub")))})
                 i += 1
         for j, name in enumerate(["onlystr", "ptrs", "nest", "derived", "auto", "cobj", "arr", "big", "withmsg"] *
-                                 (4 if not thorough else 30)):
+                                 (6 if not thorough else 30)):
             ty = tys.get(name) or shapes[name]
             v1 = gen_val(rng, ty)
             rcases.append({"id": "r%d" % j, "type": name, "val1": show(v1), "val2": show(empty_like(rng, ty, v1))})
@@ -827,18 +832,19 @@ def main(argv):
         elif why == "unlimited-hostile":
             rep = {"kind": "D", "type": c["type"], "hex": c["hex"], "presentation": "stream without limit"}
             if not returned:
-                chk.violate("unlimited-stream-truncated-container-never-terminates",
+                chk.violate("unlimited-stream-scalar-ptr-vector-never-terminates",
                             "parsing %s as %s from a stream-backed coded stream without limit never returns (a length "
-                            "prefix pointing beyond the end of the stream: the element loop spins at end of input; rc=%d)"
+                            "prefix pointing beyond the end of the stream over a vector of smart pointers to scalars: "
+                            "the element loop makes no progress at end of input; rc=%d)"
                             % (c["hex"][:80], c["type"], rc), rep)
             else:
                 chk.broke("correspondence", "model predicts no return, implementation returns", line[:300] + "\n" + out[:300])
         else:
             rep = {"kind": "D", "type": c["type"], "hex": c["hex"]}
             if not returned:
-                chk.violate("overlong-length-prefix-never-terminates",
-                            "parsing %s as %s never returns (loop without progress until memory is exhausted or the "
-                            "alarm fires: rc=%d %s)" % (c["hex"][:80], c["type"], rc, err.strip()[-100:]), rep)
+                chk.violate("hostile-input-never-returns",
+                            "parsing %s as %s never returns although the input is under a limit (the model predicts it "
+                            "too, against theorem c11_parse_terminates of the regenerated model: rc=%d %s)" % (c["hex"][:80], c["type"], rc, err.strip()[-100:]), rep)
             else:
                 chk.broke("correspondence", "model predicts no return, implementation returns", line[:300] + "\n" + out[:300])
     chk.notes["probes"] = {"%s/%s" % k: v for k, v in seen_probe.items()}
